@@ -17,10 +17,11 @@ void vs_reg_sem(void* addr, int idx);              /* initial value is read from
 void vs_spawn(int t, void* (*fn)(void*), void* arg); /* a thread that runs from the beginning of the scenario */
 void vs_teardown(void);                            /* unwinds and joins every real thread of the case */
 
-/* moves of the schedule (Sched.v: Run / Spurious / Timeout / Clock / Rotate) */
+/* moves of the schedule (Sched.v: Run / Spurious / Timeout / TimeoutSteal / Clock / Rotate) */
 void vs_move_run(int t);
 void vs_move_spur(int t);
 void vs_move_tmo(int t);
+void vs_move_steal(int t);                         /* a woken timed waiter past its deadline reports ETIMEDOUT */
 void vs_move_clock(long long n);
 void vs_move_rot(int c);
 
